@@ -9,6 +9,7 @@ layer of escapes (printing `{:x}` / `hex_number`).
 -/
 import RsassModel.Writer.CssString
 import RsassModel.Writer.Ident
+import RsassModel.Writer.LemmasIdent
 namespace C09
 open Writer.Str
 
@@ -159,5 +160,52 @@ theorem ident_threshold_witness :
     Writer.Ident.normRest Writer.Ident.thrCode 0x85 = .hex 0x85 ∧
     Writer.Ident.reread 0x80 false (Writer.Ident.normRest Writer.Ident.thrCode 0x85) = some (.raw 0x85) := by
   decide
+
+/-- **ident_roundtrip**: a whole identifier (every code point given as an escape, any code
+points, any length) is written back by the reader as a text that reads back as itself. -/
+theorem ident_roundtrip (cs : List Nat) :
+    Writer.Ident.rereadIdent (Writer.Ident.normIdent cs) = some (Writer.Ident.normIdent cs) := by
+  cases cs with
+  | nil => rfl
+  | cons c rest =>
+    simp [Writer.Ident.normIdent, Writer.Ident.rereadIdent, ident_escape_roundtrip_first c,
+      Writer.Ident.rereadRest_norm ident_escape_roundtrip_rest rest]
+
+example : Writer.Ident.normIdent [0x6d, 0x85, 0x31, 0xa0, 0x2d, 0x7b]
+    = [.raw 0x6d, .hex 0x85, .raw 0x31, .bs 0xa0, .raw 0x2d, .bs 0x7b] := by decide
+
+/-- `string_roundtrip` on the token level for **every** code-point list, backslashes included:
+`Display` writes a backslash of the value as the one token `.ch 92`, which the token-level
+reader reads as that code point. -/
+theorem string_roundtrip_tokens (s : List Nat) : readQ (showQ SQuirks.spec s) = s := by
+  suffices h : readAux none (showQ SQuirks.spec s) = s ∧
+      (∀ c, needsTerm s = false → readAux (some c) (showQ SQuirks.spec s) = c :: s) from h.1
+  induction s with
+  | nil => exact ⟨rfl, fun _ _ => rfl⟩
+  | cons x rest ih =>
+    obtain ⟨ih1, ih2⟩ := ih
+    by_cases hq : x = 34
+    · subst hq
+      exact ⟨by simp [showQ, readAux, ih1], fun c _ => by simp [showQ, readAux, ih1]⟩
+    · by_cases hp : isPrivateUse x = true
+      · cases ht : needsTerm rest with
+        | true =>
+          exact ⟨by simp [showQ, hq, hp, ht, spec_flag, readAux, ih1],
+                 fun c _ => by simp [showQ, hq, hp, ht, spec_flag, readAux, ih1]⟩
+        | false =>
+          exact ⟨by simp [showQ, hq, hp, ht, spec_flag, readAux, ih2 x ht],
+                 fun c _ => by simp [showQ, hq, hp, ht, spec_flag, readAux, ih2 x ht]⟩
+      · refine ⟨by simp [showQ, hq, hp, readAux, ih1], ?_⟩
+        intro c hn
+        simp only [needsTerm, Bool.or_eq_false_iff, decide_eq_false_iff_not] at hn
+        simp [showQ, hq, hp, readAux, hn.1.1, hn.1.2, hn.2, ih1]
+
+/- Not proved (kept visible):
+   * `string_roundtrip` on the BYTE level for values with a backslash.  It is false for the code: `Display for
+     CssString` writes a backslash unescaped (the value `\` is written `"\"`, an unterminated string; `\61` is
+     written `"\61"` and read as `a`), because rsass keeps escapes inside string values as text.  The statement
+     needs a specification `Display` that writes `\\` (a new token in `Writer.Str.Tok`) and a byte-level reader
+     (hex digits of escapes): model definitions that were frozen for this round.
+   * `tree_roundtrip : parseTree (printTree t) = t` on token streams (no parser model of rules/at-rules). -/
 
 end C09
